@@ -120,9 +120,40 @@ type errT string
 
 func (e errT) Error() string { return string(e) }
 
+// FillMode selects the shape of the containers Fill builds: 0 two elements each; 1 empty but
+// non-nil; 2 nil (pointers too); 3 alternating two elements / empty with spare capacity / nil.
+var FillMode int
+
+var FillModeNames = []string{"populated", "empty-non-nil containers", "nil containers and pointers", "mixed populated/empty/nil"}
+
+func containerShape(n int) int {
+	switch FillMode {
+	case 1:
+		return 1
+	case 2:
+		return 2
+	case 3:
+		return n % 3
+	}
+	return 0
+}
+
 // Fill sets every settable leaf reachable from v to a distinct non-zero value.
 func Fill(v reflect.Value, n *int) {
 	*n++
+	switch v.Kind() {
+	case reflect.Slice, reflect.Map, reflect.Pointer:
+		switch sh := containerShape(*n); {
+		case sh == 2:
+			return
+		case sh == 1 && v.Kind() == reflect.Slice:
+			v.Set(reflect.MakeSlice(v.Type(), 0, 4*(FillMode/3)))
+			return
+		case sh == 1 && v.Kind() == reflect.Map:
+			v.Set(reflect.MakeMap(v.Type()))
+			return
+		}
+	}
 	switch v.Kind() {
 	case reflect.Bool:
 		v.SetBool(true)
@@ -359,8 +390,20 @@ func CheckPartial(checks *int, fails *[]string, label string, gen, org any, omit
 	if res := reflect.Zero(pv.Type()).MethodByName("DeepCopyAs").Call(nil)[0]; !res.IsNil() {
 		fail("DeepCopyAs of nil is not nil")
 	}
+	for mode := 0; mode <= 3; mode++ {
+		checkPartialCopy(checks, fail, reflect.New(gt), ot, om, replaced, mode)
+	}
+}
+
+func checkPartialCopy(checks *int, fail0 func(string, ...any), pv reflect.Value, ot reflect.Type, om map[string]bool, replaced map[string]string, mode int) {
+	fail := func(format string, a ...any) {
+		fail0("value shape %q: "+format, append([]any{FillModeNames[mode]}, a...)...)
+	}
+	m := pv.MethodByName("DeepCopyAs")
 	n := 0
+	FillMode = mode
 	Fill(pv.Elem(), &n)
+	FillMode = 0
 	*checks++
 	res := m.Call(nil)[0]
 	if res.Type() != reflect.PointerTo(ot) {
@@ -530,6 +573,32 @@ func CheckDeepCopy(checks *int, fails *[]string, name string, ptr any) {
 	touched := Mutate(cpElem)
 	if !reflect.DeepEqual(pv.Elem().Interface(), snapshot.Interface()) {
 		fail("mutating %d slices/maps of the copy changed the original: now %+v, was %+v", touched, pv.Elem().Interface(), snapshot.Interface())
+	}
+	// the other value shapes: empty-but-non-nil / nil / mixed containers (deep equality tells nil from empty)
+	for mode := 1; mode <= 3; mode++ {
+		fresh := reflect.New(pv.Elem().Type())
+		FillMode = mode
+		k := 0
+		Fill(fresh.Elem(), &k)
+		FillMode = 0
+		snap := Clone(fresh.Elem())
+		*checks++
+		cp := fresh.MethodByName("DeepCopy").Call(nil)[0]
+		e := cp
+		if cp.Kind() == reflect.Pointer {
+			if cp.IsNil() {
+				fail("value shape %q: DeepCopy of a non-nil value returned nil", FillModeNames[mode])
+				continue
+			}
+			e = cp.Elem()
+		}
+		if !reflect.DeepEqual(e.Interface(), fresh.Elem().Interface()) {
+			fail("value shape %q: copy is not deeply equal to the original: %#v vs %#v", FillModeNames[mode], e.Interface(), fresh.Elem().Interface())
+		}
+		Mutate(e)
+		if !reflect.DeepEqual(fresh.Elem().Interface(), snap.Interface()) {
+			fail("value shape %q: mutating the copy changed the original: now %#v, was %#v", FillModeNames[mode], fresh.Elem().Interface(), snap.Interface())
+		}
 	}
 	// DeepCopyInto into a fresh value
 	if into := recv.MethodByName("DeepCopyInto"); into.IsValid() && into.Type().NumIn() == 1 && into.Type().In(0) == pv.Type() {
